@@ -849,8 +849,8 @@ def plan_c02(K, ctx):
 
     def one(fmt):
         def run():
-            pre_c = os.path.join(ctx.rundir, f"c02rand_{fmt}.pre.cmds.ndjson")
-            pre_o = os.path.join(ctx.rundir, f"c02rand_{fmt}.pre.obs.ndjson")
+            pre_c = os.path.join(ctx.rundir, f"c02rand_{fmt}.pre_in.ndjson")
+            pre_o = os.path.join(ctx.rundir, f"c02rand_{fmt}.pre_out.ndjson")
             cmds = os.path.join(ctx.rundir, f"c02rand_{fmt}.cmds.ndjson")
             obs = os.path.join(ctx.rundir, f"c02rand_{fmt}.obs.ndjson")
             with open(pre_c, "w", encoding="utf-8") as g:
@@ -903,8 +903,50 @@ def plan_x01(K, ctx):
     }
 
 
+def plan_x02(K, ctx):
+    """translation between formats and idempotence of format . parse . format (not one of the 17 properties; DESIGN §10)"""
+    quick = ctx.tier == "quick"
+    cfg = ("SPECIFICATION Spec\n" + consts(TIER=f'"{ctx.tier}"', SEEDS=16, SEED=ctx.seed) + "INVARIANT Emit\nCHECK_DEADLOCK FALSE\n")
+    pairs = [(a, b) for a in K.FORMATS for b in K.FORMATS if a != b]
+    cmds = os.path.join(ctx.rundir, "x02.cmds.ndjson")
+    obs = os.path.join(ctx.rundir, "x02.obs.ndjson")
+    tmp = os.path.join(ctx.rundir, "x02_values.cmds.ndjson")
+    open(tmp, "w").close()
+    # (a) C01's enumerated universe (its names are legal in every format), every ordered pair of formats
+    K.run_mc(ctx, "MC_C01", cfg, "ascii", "x02_values_mc", tmp, workers=8)
+    rnd = random.Random(ctx.seed)
+    with open(cmds, "w", encoding="utf-8") as g:
+        for line in sorted(set(x for x in open(tmp, encoding="utf-8").read().split("\n") if x)):
+            c = json.loads(line)
+            for a, b in (pairs if not quick else [rnd.choice(pairs), rnd.choice(pairs)]):
+                g.write(json.dumps({"op": "translate", "from": a, "to": b, "v": c["v"]}, ensure_ascii=False) + "\n")
+        # (b) seeded random values whose names are ASCII letters, digits, '_' and inner '-' (legal in every format)
+        allv = os.path.join(ctx.rundir, "x02_rand_values.ndjson")
+        p = K.sh([K.NV, "drive", "values", str(ctx.seed), str(6000 if quick else 120000), allv], 900)
+        if p.returncode != 0:
+            raise K.ToolError("nv drive values failed: " + (p.stdout or ""))
+        for line in open(allv, encoding="utf-8"):
+            r = json.loads(line)
+            if r["ascii_safe"]:
+                a, b = rnd.choice(pairs)
+                g.write(json.dumps({"op": "translate", "from": a, "to": b, "v": r["v"], "rand": True}, ensure_ascii=False) + "\n")
+    K.account(ctx, cmds, nontrivial_value)
+    K.run_exec(ctx, cmds, obs)
+    K.run_judge(ctx, "J_Translate", "ascii", obs, "x02_judge", shards=3 if quick else 8)
+    return {
+        "note": "Translation: a value whose names are legal in every format goes format_F ; parse_F ; format_G ; parse_G ; format_F ; parse_F for ordered "
+                "pairs (F, G) of the three formats and must come back as the same value each time (J_Translate compares canonical values), the "
+                "translated value must compare equal under the real ==, and format(parse(format(v))) must be the text of format(v) up to the order "
+                "of unordered components. Values: C01's enumerated universe (MC_C01) and seeded random values with ASCII-spelt names. The design-"
+                "level statement is the composition of C01's RoundTrip invariant over two formats.",
+        "rule": "one case = (value, source format, target format); non-trivial = not a bare atom",
+        "assumptions": TRUSTED,
+    }
+
+
 PLANS = {
     "X01": plan_x01,
+    "X02": plan_x02,
     "C01": plan_c01,
     "C02": plan_c02,
     "C03": plan_c03,
@@ -926,7 +968,7 @@ PLANS = {
 
 
 # ------------------------------------------------------------------------------------------------ replay / selftest
-JUDGE_OF = {"X01": "J_X01", "C02": "J_C02", "C03": "J_Pipe", "C15": "J_C15", "C11": "J_C11", "C16": "J_C16", "C06": "J_C06", "C07": "J_C06", "C04": "J_Garbage", "C05": "J_Garbage", "C12": "J_Garbage", "C08": "J_C08", "C09": "J_Pipe", "C10": "J_Pipe", "C01": "J_C01", "C17": "J_C17", "C14": "J_C14", "C13": "J_C13"}
+JUDGE_OF = {"X01": "J_X01", "X02": "J_Translate", "C02": "J_C02", "C03": "J_Pipe", "C15": "J_C15", "C11": "J_C11", "C16": "J_C16", "C06": "J_C06", "C07": "J_C06", "C04": "J_Garbage", "C05": "J_Garbage", "C12": "J_Garbage", "C08": "J_C08", "C09": "J_Pipe", "C10": "J_Pipe", "C01": "J_C01", "C17": "J_C17", "C14": "J_C14", "C13": "J_C13"}
 
 
 def replay(K, pid, path, seed):
@@ -992,6 +1034,11 @@ def selftest(K, ctx, meta):
         fmt = m.group(1) if m else "ascii"
         before = len(ctx.violations)
         bad = K.run_judge(ctx, judge, fmt, bad_path, "selftest_" + os.path.basename(obs).split(".")[0], env_extra=getattr(ctx, "judge_env", None))
+        # rejections that are listed known findings (and were not corrupted here) are not the selftest's business
+        known = [k for k in K.load_known() if k["property"] == ctx.pid]
+        if known:
+            byid = {json.loads(x)["id"]: json.loads(x) for x in lines if x}
+            bad = [(i, tags) for i, tags in bad if i in changed or not any(k["re"].search(K.signature(byid[i], tags, fmt)) for k in known)]
         got = sorted(i for i, _ in bad)
         K.log(f"SELFTEST {os.path.basename(obs)}: corrupted {sorted(changed)}, judge rejected {got}")
         ok = ok and len(changed) > 0 and set(changed) <= set(got) and len(got) <= len(changed) + (400 if ctx.pid == "C16" else 0)
@@ -1016,6 +1063,20 @@ def corrupt(o, rnd, pid="", prop_env=None):
         if op == "rt_lex" and ob.get("r", {}).get("r") == "ok":
             ob["r"] = {"r": "err", "msg": "corrupted"}
             return True
+        if op == "translate" and ob.get("p2", {}).get("r") == "ok":
+            k = rnd.choice(["p2", "refmt", "eq12"]) if "p3" in ob else "p2"
+            if k == "p2":
+                ob["p2"] = {"r": "ok", "v": {"kind": "term", "v": {"k": "Word", "n": "corrupted"}}}
+            elif k == "refmt":
+                ob["refmt_bag_same"] = False
+            else:
+                ob["eq12"] = False
+            return True
+        if op == "pipe_l":
+            if ob.get("e", {}).get("r") == "ok" and ob.get("f", {}).get("r") == "ok":
+                ob["f"] = {"r": "ok", "v": {"kind": "term", "v": {"k": "Word", "n": "corrupted"}}}
+                return True
+            return False
         if op in ("pipe", "pipe_v") and "e" in ob:
             if "classify" in o["c"]:
                 if ob["e"].get("r") == "ok" and o["c"].get("has_term"):
